@@ -174,22 +174,51 @@ class Super:
                     self._chain(ctx, n, chain_units, nmap[b].idx, [("switch", bi, v) for v in labs])
                 continue
             labels = {}
-            for b in bv.succ[bi]:
+            live = self._live_succs(ctx, bv, bi)
+            for b in live:
                 labels[b] = [("switch", bi, v) for v in bv.edge_label.get((bi, b), [])]
             if units:
                 # run the units, then go to every successor
                 tail = self._chain_units(ctx, n, units)
-                for b in bv.succ[bi]:
+                for b in live:
                     for tn in tail:
                         self._edge(tn, nmap[b].idx)
                         for lb in labels[b]:
                             self.elabel.setdefault((tn, nmap[b].idx), []).append(lb)
             else:
-                for b in bv.succ[bi]:
+                for b in live:
                     self._edge(n.idx, nmap[b].idx)
                     for lb in labels[b]:
                         self.elabel.setdefault((n.idx, nmap[b].idx), []).append(lb)
         return ctx
+
+    def _live_succs(self, ctx, bv, bi):
+        """Successors of a block in this calling context: a switch on a parameter whose value is a
+        constant at this call site keeps only the matching arm (context-sensitive constants)."""
+        ss = bv.succ[bi]
+        t = bv.blocks[bi]["t"]
+        if t["k"] != "switch" or len(ss) < 2 or ctx.parent is None:
+            return ss
+        if bv.switch_subject(bi) is not None:
+            return ss
+        term = bv.trace_op(t["o"])
+        x = term
+        while x[0] in ("ref", "deref"):
+            x = x[1]
+        if not (x[0] == "param" or (x[0] == "field" and x[1][0] == "param")):
+            return ss
+        r = self.resolve(ctx, term)
+        if r[0] != "const" or "v" not in r[1]:
+            return ss
+        v = r[1]["v"]
+        keep = []
+        for b in ss:
+            labs = bv.edge_label.get((bi, b), [])
+            arms = [a for a, _ in t["arms"]]
+            if v in labs or ("otherwise" in labs and v not in arms):
+                keep.append(b)
+        self.pruned = getattr(self, "pruned", 0) + (len(ss) - len(keep))
+        return keep or ss
 
     def _chain_units(self, ctx, n, units):
         """Splice bodies sequentially after node n; return the list of tail node ids."""
